@@ -262,7 +262,7 @@ class Ctx:
     # ------------------------------------------------------------------ verdicts
     def known_findings(self):
         if self._known is None:
-            p = os.path.join(VERIF, "known_findings.json")
+            p = os.path.join(VERIF, "known", self.prop + ".json")
             self._known = json.load(open(p)) if os.path.exists(p) else {"known": [], "fixed": []}
         return self._known
 
